@@ -62,10 +62,10 @@ theorem ratio_unit {nC nT : Nat} {v : Rat} (h : ratio (nC, nT) = .ok v) (hle : n
     have hq0 : (0 : ℚ) ≤ (nC : ℚ) / (nT : ℚ) := div_nonneg (Nat.cast_nonneg _) hpos.le
     have hq1 : (nC : ℚ) / (nT : ℚ) ≤ 1 := by
       rw [div_le_one hpos]; exact_mod_cast hle
-    have r0 := Proofs.Num.round_mono 6 hq0
-    have r1 := Proofs.Num.round_mono 6 hq1
-    have e0 : Py.round (0 : ℚ) 6 = 0 := by simpa using Proofs.Num.round_intCast 0 6
-    have e1 : Py.round (1 : ℚ) 6 = 1 := by simpa using Proofs.Num.round_intCast 1 6
+    have r0 := Py.round_mono 6 hq0
+    have r1 := Py.round_mono 6 hq1
+    have e0 : Py.round (0 : ℚ) 6 = 0 := by simpa using Py.round_intCast 0 6
+    have e1 : Py.round (1 : ℚ) 6 = 1 := by simpa using Py.round_intCast 1 6
     rw [e0] at r0; rw [e1] at r1
     rw [← h]; exact ⟨r0, r1⟩
 
@@ -138,6 +138,6 @@ theorem spec_fnat_self (c : Rat) (ref : List Atom) (h : contacts c ref ≠ []) :
     exact_mod_cast this
   rw [div_self hn]
   congr 1
-  simpa using Proofs.Num.round_intCast 1 6
+  simpa using Py.round_intCast 1 6
 
 end Proofs.Fnat
